@@ -257,13 +257,14 @@ class Ctx:
     # ---- findings -------------------------------------------------------
     def violation(self, signature, what, replay, broken_item=None):
         """A concrete failing input on the REAL code.  `signature` is the cause signature."""
-        if broken_item is not None:
-            broken_item["has_failing_input"] = True
         for f in self.findings:
             if f.get("property") == self.prop and f.get("status") == "known" and f.get("signature") == signature:
+                # a listed finding never explains away a broken obligation / correspondence
                 if signature not in [k["signature"] for k in self.known]:
                     self.known.append(dict(signature=signature, what=f.get("what", what)))
                 return "known"
+        if broken_item is not None:
+            broken_item["has_failing_input"] = True
         if signature in [v["signature"] for v in self.violations]:
             return "dup"
         path = self._write_replay(dict(property=self.prop, signature=signature, what=what, replay=replay, seed=self.seed, tier=self.tier))
